@@ -155,6 +155,21 @@ def _canon(f, node, truth):
     return ("val", key(f, node), bool(truth))
 
 
+def null_test(f, cond):
+    """(key, successor index taken when the tested value is zero/null) for conditions of the forms
+    `p`, `!p`, `p != 0`, `p == 0`, `0 != p` (casts ignored); None otherwise"""
+    if cond is None:
+        return None
+    c = _canon(f, cond, True)
+    if c[0] == "val":
+        return (c[1], 1 if c[2] else 0)
+    l, op, r = c
+    if op in ("==", "!=") and (l in ("0", "nullptr", "NULL") or r in ("0", "nullptr", "NULL")):
+        k = r if l in ("0", "nullptr", "NULL") else l
+        return (k, 0 if op == "==" else 1)
+    return None
+
+
 def _contradict(x, y):
     if x[0] == "val" and y[0] == "val":
         return x[1] == y[1] and x[2] != y[2]
@@ -204,8 +219,109 @@ def dominating_atoms(f, pos):
             for (n_, t_) in alive[0]:
                 if (n_, t_) not in out:
                     out.append((n_, t_))
+    _expand_named_tests(f, out, pos)
     cache[pos] = out
     return out
+
+
+def _stable_init(f, local_id, pos):
+    """initialiser of a local that is defined once and whose operands are not stored between that definition and `pos`
+    (`const bool failed = result < 0;` names the test for as long as `result` keeps its value)"""
+    defs = getattr(f, "_defs_cache", None)
+    if defs is None:
+        defs = f._defs_cache = q.local_defs(f)
+    init = q.single_def(f, local_id, defs)
+    if init is None:
+        return None
+    dpos = f.node_pos(init)
+    if dpos is None:
+        return None
+    ops = set()
+    for x in f.desc(init):
+        nx = f.nodes[x]
+        if nx["k"] == "DeclRefExpr" and nx["ref"].get("dk") in ("local", "parm"):
+            ops.add(("v", nx["ref"]["id"]))
+        elif nx["k"] == "MemberExpr":
+            ops.add(("m", nx.get("m")))
+        elif nx["k"] in ("CallExpr", "CXXMemberCallExpr", "CXXOperatorCallExpr"):
+            return None
+    for st in q.stores(f):
+        l = f.nodes[st.lhs]
+        hit = (l["k"] == "DeclRefExpr" and ("v", l["ref"].get("id")) in ops) or (l["k"] == "MemberExpr" and ("m", l.get("m")) in ops)
+        if not hit:
+            continue
+        sp = f.node_pos(st.node)
+        if sp is None or (f.find_path(dpos, {sp}) is not None and (sp == pos or f.find_path(sp, {pos}) is not None)):
+            return None
+    return init
+
+
+def _expand_named_tests(f, out, pos):
+    """atoms that are bool locals naming a test are followed into the test; `a && b` known false with `a` known true gives `b` false
+    (and the dual for ||)"""
+    def truth_of(node, depth=0):
+        node = f.strip(node)
+        n = f.nodes[node]
+        if n["k"] == "UnaryOperator" and n.get("op") == "!":
+            t = truth_of(n["c"][0], depth)
+            return None if t is None else (not t)
+        if n["k"] == "BinaryOperator" and n.get("op") in ("&&", "||"):
+            a, b = truth_of(n["c"][0], depth), truth_of(n["c"][1], depth)
+            if n["op"] == "&&":
+                return False if (a is False or b is False) else (True if (a and b) else None)
+            return True if (a or b) else (False if (a is False and b is False) else None)
+        cn = _canon(f, node, True)
+        for a_ in out:
+            if a_[0] == "case":
+                continue
+            m_, t_ = a_[0], a_[1]
+            ck = _canon(f, m_, t_)
+            if ck == cn:
+                return True
+            if _contradict(ck, cn):
+                return False
+        return None
+
+    def add(node, truth, depth=0):
+        node = f.strip(node)
+        n = f.nodes[node]
+        if depth > 6:
+            return
+        if n["k"] == "UnaryOperator" and n.get("op") == "!":
+            return add(n["c"][0], not truth, depth + 1)
+        if n["k"] == "BinaryOperator" and n.get("op") in ("&&", "||"):
+            a, b = n["c"]
+            if (n["op"] == "&&") == bool(truth):
+                add(a, truth, depth + 1)
+                add(b, truth, depth + 1)
+            else:
+                # one operand decides when the other is known not to
+                ta, tb = truth_of(a), truth_of(b)
+                if ta is not None and ta != truth:
+                    add(b, truth, depth + 1)
+                elif tb is not None and tb != truth:
+                    add(a, truth, depth + 1)
+            return
+        if (node, truth) not in out:
+            out.append((node, truth))
+        if n["k"] == "DeclRefExpr" and n["ref"].get("dk") == "local" and "bool" in (n["ref"].get("t") or n.get("t") or ""):
+            init = _stable_init(f, n["ref"]["id"], pos)
+            if init is not None:
+                add(init, truth, depth + 1)
+
+    for _round in range(3):
+        before = len(out)
+        for a_ in list(out):
+            if a_[0] == "case":
+                continue
+            m_, t_ = a_[0], a_[1]
+            n = f.nodes[f.strip(m_)]
+            if n["k"] == "DeclRefExpr" and n["ref"].get("dk") == "local" and "bool" in (n["ref"].get("t") or n.get("t") or ""):
+                init = _stable_init(f, n["ref"]["id"], pos)
+                if init is not None:
+                    add(init, t_, 1)
+        if len(out) == before:
+            break
 
 
 def feasible_valuations(f, pos, domains):
